@@ -495,8 +495,12 @@ def active_set(case, drv):
     return set(range(n))
 
 
-def execute(case, b, drv, observers=()):
-    """Runs the real engine.  Returns (broker, escaped exception or None)."""
+def execute(case, b, drv, observers=(), graphs=None):
+    """Runs the real engine.  Returns (broker, escaped exception or None).
+
+    graphs: optional dict kept by the caller across several calls; the graph object built for the
+    driver is stored there and handed to the engine again (a caller that evaluates the same graph
+    dict repeatedly, as dr.run() on a group or cluster processing do)."""
     from insights.core import dr
     comps = b.comps
     nodes = case["nodes"]
@@ -514,33 +518,45 @@ def execute(case, b, drv, observers=()):
         broker.add_observer(o[0], o[1])
     kind = drv["kind"]
     escaped = None
+
+    def full_graph():
+        return dict((c, set(comps[j] for j in dep_set(nodes[i]))) for i, c in enumerate(comps))
+
+    def cached(build):
+        if graphs is None:
+            return build()
+        if kind not in graphs:
+            graphs[kind] = build()
+        return graphs[kind]
     try:
         if kind == "run_full":
-            graph = dict((c, set(comps[j] for j in dep_set(nodes[i]))) for i, c in enumerate(comps))
-            dr.run(graph, broker=broker)
+            dr.run(cached(full_graph), broker=broker)
         elif kind == "run_targets":
             dr.run([comps[i] for i in drv["targets"]], broker=broker)
         elif kind == "run_single_target":
             dr.run(comps[drv["targets"][0]], broker=broker)
         elif kind == "run_subset":
-            graph = dict((comps[i], set(comps[j] for j in dep_set(nodes[i]))) for i in drv["subset"])
-            dr.run(graph, broker=broker)
+            dr.run(cached(lambda: dict((comps[i], set(comps[j] for j in dep_set(nodes[i]))) for i in drv["subset"])),
+                   broker=broker)
         elif kind == "run_components":
-            graph = dict((c, set(comps[j] for j in dep_set(nodes[i]))) for i, c in enumerate(comps))
+            graph = cached(full_graph)
             order = [comps[i] for i in linear_extension(case, range(len(comps)), drv["prio"])]
             dr.run_components(order, graph, broker)
         elif kind == "run_group":
             # the graph dr.run() uses when it is given a component group: the registry's own
-            # per-group copy of the dependencies (restricted to this case's components)
+            # per-group dependency sets (the very objects, restricted to this case's components)
             reg = dr.COMPONENTS[dr.GROUPS.single]
-            graph = dict((c, set(reg[c])) for c in comps)
-            dr.run(graph, broker=broker)
-        elif kind in ("run_incremental", "run_all"):
-            graph = dict((c, set(comps[j] for j in dep_set(nodes[i]))) for i, c in enumerate(comps))
+            dr.run(cached(lambda: dict((c, reg[c]) for c in comps)), broker=broker)
+        elif kind in ("run_incremental", "run_all", "run_all_pool"):
+            graph = cached(full_graph)
             if kind == "run_incremental":
                 list(dr.run_incremental(graph, broker=broker))
-            else:
+            elif kind == "run_all":
                 dr.run_all(graph, broker=broker)
+            else:
+                from concurrent.futures import ThreadPoolExecutor
+                with ThreadPoolExecutor(drv.get("pool", 2)) as pool:
+                    dr.run_all(graph, broker=broker, pool=pool)
         else:
             raise AssertionError(kind)
     except Exception as e:  # noqa
